@@ -83,7 +83,13 @@ def compare(op, a, b):
     if a.kind == 'text' and b.kind == 'text':
         return V('bool', CMP[op](a.v, b.v))
     if a.kind == 'text' or b.kind == 'text':
-        raise Discard('text against non-text comparison is the subject of C07')
+        other = b if a.kind == 'text' else a
+        if other.kind == 'bool':
+            raise Discard('logical operand of a comparison is the subject of C07')
+        # a number (however the text is spelled: '12' is text) is less than every text - the one rule of C07 that deciding
+        # '& binds tighter than comparisons' needs: 12=1&2 is 12="12", which is FALSE
+        less = b.kind == 'text'          # a is the number
+        return V('bool', {'<': less, '<=': less, '>': not less, '>=': not less, '=': False, '<>': True}[op])
     if a.kind == 'bool' or b.kind == 'bool':
         raise Discard('logical operand of a comparison is the subject of C07')
     if abs(a.v - b.v) <= (a.err + b.err) * 4 and (a.err or b.err):
